@@ -7,34 +7,6 @@ import (
 
 // ----- abstract byte slices (Str theory): filled in by str.go -----
 
-func (ex *Exec) sliceAbs(s SliceV, e *ast.SliceExpr) Value {
-	ex.unsupported("slicing abstract slice at %s", ex.where(e))
-	return nil
-}
-func (ex *Exec) absToArray(s SliceV, n int, e ast.Node) Value {
-	ex.unsupported("abstract slice to array at %s", ex.where(e))
-	return nil
-}
-func (ex *Exec) makeAbs(st *types.Slice, ln, cp *Term, e ast.Node) Value {
-	ex.unsupported("make with symbolic size at %s", ex.where(e))
-	return nil
-}
-func (ex *Exec) copyAbs(d, s SliceV, e ast.Node) Value {
-	ex.unsupported("copy with abstract slice at %s", ex.where(e))
-	return nil
-}
-func (ex *Exec) appendAbs(s, src SliceV, e ast.Node) Value {
-	ex.unsupported("append with abstract slice at %s", ex.where(e))
-	return nil
-}
-func (ex *Exec) freshAbsSlice(name string, st *types.Slice) Value {
-	ex.unsupported("abstract slice result %s", name)
-	return nil
-}
-func (ex *Exec) absParamSlice(name string, st *types.Slice) Value {
-	ex.unsupported("slice parameter %s needs a 'lens' directive", name)
-	return nil
-}
 func rndByte(j *Term, i int) *Term { return App("rndbyte", SInt, j, IntI(int64(i))) }
 
 // rndBlock(j) = big-endian value of the j-th 32-byte block of the entropy stream.
@@ -47,6 +19,12 @@ func rndBlock(j *Term) *Term {
 }
 
 func (ex *Exec) callStd3(full string, fobj *types.Func, args []Value, e *ast.CallExpr) Value {
+	if v, ok := ex.callHash(full, args, e); ok {
+		return v
+	}
+	if v, ok := ex.callBig(full, args, e); ok {
+		return v
+	}
 	switch full {
 	case "io.ReadFull":
 		// trusted model of io.ReadFull(crypto/rand.Reader, buf): either an error (nothing is assumed about buf),
